@@ -1,20 +1,21 @@
 ---------------------------- MODULE MCParallel ----------------------------
 (* Model-checking configurations of Parallel: the configuration is chosen  *)
-(* nondeterministically in Init, one TLC run covers all of them.           *)
+(* nondeterministically in the initial state, so one TLC run covers every  *)
+(* combination.                                                             *)
 EXTENDS Parallel
 Ones(n) == [k \in 1..n |-> 1]
 \* set level: every thread count / queue length / number of sets / error index / stop point / init failure
-SetConfigs(maxW, maxQ, maxN) ==
-  { [NW |-> nw, Q |-> qq, Sizes |-> Ones(n), ErrAt |-> e, StopAfter |-> st, RInitFail |-> rf, DInitFailAt |-> df,
-     RDInitFailAt |-> 0, PerRecord |-> FALSE] :
-      nw \in 1..maxW, qq \in 1..maxQ, n \in 0..maxN, e \in 0..(maxN + 1), st \in (0..(maxN + 2)) \cup {maxN + 5},
-      rf \in BOOLEAN, df \in 0..(maxQ + 1) }
+InitSet(maxW, maxQ, maxN) ==
+  \E nw \in 1..maxW, qq \in 1..maxQ, n \in 0..maxN, e \in 0..(maxN + 1), st \in (0..(maxN + 2)) \cup {maxN + 5},
+     rf \in BOOLEAN, df \in 0..(maxQ + 1) :
+       InitWith([NW |-> nw, Q |-> qq, Sizes |-> Ones(n), ErrAt |-> e, StopAfter |-> st, RInitFail |-> rf, DInitFailAt |-> df,
+                 RDInitFailAt |-> 0, PerRecord |-> FALSE])
 \* per-record layer: set sizes vary, so recycled output vectors are longer and shorter than the next set
-SizeSeqs(maxN, maxS) == UNION { [1..n -> 0..maxS] : n \in 0..maxN }
-RecConfigs(maxW, maxQ, maxN, maxS) ==
-  { [NW |-> nw, Q |-> qq, Sizes |-> sz, ErrAt |-> e, StopAfter |-> maxN + 5, RInitFail |-> FALSE, DInitFailAt |-> 0,
-     RDInitFailAt |-> rdf, PerRecord |-> TRUE] :
-      nw \in 1..maxW, qq \in 1..maxQ, sz \in SizeSeqs(maxN, maxS), e \in 0..(maxN + 1), rdf \in 0..(maxS + 1) }
-QuickConfigs == SetConfigs(2, 2, 3) \cup RecConfigs(2, 2, 3, 2)
-ThoroughConfigs == SetConfigs(3, 3, 5) \cup RecConfigs(3, 2, 4, 3)
+InitRec(maxW, maxQ, maxN, maxS) ==
+  \E nw \in 1..maxW, qq \in 1..maxQ, n \in 0..maxN, e \in 0..(maxN + 1), rdf \in 0..(maxS + 1) :
+    \E sz \in [1..n -> 0..maxS] :
+       InitWith([NW |-> nw, Q |-> qq, Sizes |-> sz, ErrAt |-> e, StopAfter |-> maxN + 5, RInitFail |-> FALSE, DInitFailAt |-> 0,
+                 RDInitFailAt |-> rdf, PerRecord |-> TRUE])
+QuickSpec == (InitSet(2, 2, 3) \/ InitRec(2, 2, 2, 2)) /\ [][Next]_vars /\ Fair
+ThoroughSpec == (InitSet(3, 3, 5) \/ InitRec(3, 2, 3, 3)) /\ [][Next]_vars /\ Fair
 =============================================================================
